@@ -1083,6 +1083,18 @@ impl World {
             Some(n) => n,
             None => after.attrs.iter().find(|a| a.key.id != 0 && !before.attrs.iter().any(|b| b.key == a.key)).map(|a| a.qname.clone())?,
         };
+        // DOM Level 1: "if an attribute with that name is already present in the element, its value is changed":
+        // the Attr node stays the same node
+        if let Op::SetAttribute { name, .. } = &step.op {
+            if let Some(b) = before.attrs.iter().find(|b| b.key.id != 0 && &b.qname == name) {
+                if !after.attrs.iter().any(|a| a.key == b.key) {
+                    return Some(format!(
+                        "set_attribute({:?}) on {} replaced the Attr node {} by a new one instead of changing its value (a handle to it is now detached and keeps the old value)",
+                        name, key, b.key
+                    ));
+                }
+            }
+        }
         for b in &before.attrs {
             if b.key.id == 0 || after.attrs.iter().any(|a| a.key == b.key) {
                 continue;
